@@ -111,6 +111,24 @@ def op_match(f):
     return mt_str(p["FT"].tcp_signatures_match(s, k, p["Options"](max_dist=int(f[26]))))
 
 
+def op_match2(f):
+    """one TCPSignature object, evaluated, edited in place field by field, evaluated again"""
+    p = P()
+    s = mk_sig(f, 1)
+    k = mk_pktsig(f, 13)
+    o = p["Options"](max_dist=int(f[26]))
+    p["FT"].tcp_signatures_match(s, k, o)
+    b = mk_sig(f, 27)
+    for name in ("ip_version", "ip_options_length", "ttl", "is_bad_ttl", "payload_class", "quirks"):
+        setattr(s, name, getattr(b, name))
+    for name in ("type", "size", "scale"):
+        setattr(s.window, name, getattr(b.window, name))
+    for name in ("layout", "mss", "eol_padding_length"):
+        setattr(s.options, name, getattr(b.options, name))
+    k2 = mk_pktsig(f, 13)
+    return mt_str(p["FT"].tcp_signatures_match(s, k2, o))
+
+
 def op_wmult(f):
     k = mk_pktsig(["4", "0", "64", f[1], "", f[2], "0", f[3], "0", f[5], "0", "0", f[6]], 0)
     k.ip_version = int(f[4])
@@ -162,6 +180,7 @@ def op_find(f):
 
 OPS["find"] = op_find
 OPS["match"] = op_match
+OPS["match2"] = op_match2
 OPS["wmult"] = op_wmult
 
 
